@@ -8,7 +8,7 @@ def run(res):
         res, "c10", n,
         prop_files=["theories/Properties/C10.v"],
         model_files=["theories/Server/Inst.v"],
-        theorem_note="Properties/C10.v: C10_disconnect_preserves, C10_serviceable, C10_cut_request_state (a request cut off mid-answer: any prefix applied, then the session gone, is an ordinary history), C10_own_flush_authorised, C10_no_lock_leaked (regenerated: no function returns with a lock it took still held); over the channel table regenerated from rib.go/server.go on this run: C10_getrib_sends_stoppable, C10_getrib_sends_seen, C10_get_handler_closes_stop, C10_doget_exits, C10_blocking_ops_hold_no_lock, C10_source_follows_fixed_protocol, C10_source_producer_can_stop, C10_get_of_source_terminates, C10_get_of_source_releases_lock; C10_get_terminates, C10_get_releases_lock, C10_get_invariant; C10_get_wedges_tree_refuted",
+        theorem_note="Properties/C10.v: C10_disconnect_preserves, C10_serviceable, C10_cut_request_state (a request cut off mid-answer: any prefix applied, then the session gone, is an ordinary history), C10_own_flush_authorised, C10_teardown_lock_discipline (regenerated: guarded fields written only under the exclusive mode of their guard), C10_no_lock_leaked (regenerated: no function returns with a lock it took still held); over the channel table regenerated from rib.go/server.go on this run: C10_getrib_sends_stoppable, C10_getrib_sends_seen, C10_get_handler_closes_stop, C10_doget_exits, C10_blocking_ops_hold_no_lock, C10_source_follows_fixed_protocol, C10_source_producer_can_stop, C10_get_of_source_terminates, C10_get_of_source_releases_lock; C10_get_terminates, C10_get_releases_lock, C10_get_invariant; C10_get_wedges_tree_refuted",
         trusted=STB + ["Conc/GetProto.v: LTS of the Get handler / producer over rendezvous channels and the instance read lock (hand-written from server.go Get/doGet and rib.go GetRIB)",
                        "hook /repo/rib/verif_hooks.go VerifTryLock (is the instance lock free?)", "tools/gen_chantable: syntactic serialiser of channel operations (source order, go/types with a stub importer, no control/data-flow analysis); the fixed names of Get's channels in Conc/ChanDefs.v"],
         assumptions=["PARTIAL: gRPC stream cancellation, the Go scheduler and sync.RWMutex are modelled (rendezvous channels, any interleaving), not verified",
